@@ -397,9 +397,14 @@ func (c *SSEClientTransport) Connect(ctx context.Context) (Connection, error) {
 		return nil, fmt.Errorf("failed to connect: %s", http.StatusText(resp.StatusCode))
 	}
 
+	// One scanner serves the whole body: the endpoint event and the messages
+	// that follow it may arrive in a single read, and a second scanner would
+	// lose whatever the first had buffered.
+	events := scanEvents(resp.Body)
+
 	msgEndpoint, err := func() (*url.URL, error) {
 		var evt Event
-		for evt, err = range scanEvents(resp.Body) {
+		for evt, err = range events {
 			break
 		}
 		if err != nil {
@@ -428,7 +433,7 @@ func (c *SSEClientTransport) Connect(ctx context.Context) (Connection, error) {
 	go func() {
 		defer s.Close() // close the transport when the GET exits
 
-		for evt, err := range scanEvents(resp.Body) {
+		for evt, err := range events {
 			if err != nil {
 				return
 			}
